@@ -91,6 +91,9 @@ type Session struct {
 	WantSample int // number of completed paths to sample with model+observations
 	InlineGo   bool // `go f()` runs f inline (stated per harness)
 	ExtraInits []*ssa.Function // package initialisers to run before the harness package's
+	// PermuteRanges: functions (ssa names) whose `range` over a map of 2-3 keys
+	// is explored in every order instead of the deterministic sorted one
+	PermuteRanges map[string]bool
 	IntrinsicPkgs map[string]bool
 
 	mu            sync.Mutex
@@ -168,6 +171,7 @@ type Explorer struct {
 	panicWhere string
 	noSample   bool
 	sliceN     int
+	permN      int
 	// per-path results, merged into the session at path end
 	queries    int64
 	solverTime time.Duration
@@ -626,6 +630,7 @@ func (ex *Explorer) RunPath(prefix []Dec) (outcome string) {
 	ex.solverTime = 0
 	ex.panicWhere = ""
 	ex.noSample = false
+	ex.permN = 0
 	z := ex.solver()
 	z.send("(push 1)")
 	i := &interpreter{
@@ -1096,4 +1101,20 @@ func (s symSlice) reslice(lo, hi, max value) value {
 		off:  binop(token.ADD, nil, s.off, lo),
 		ln:   binop(token.SUB, nil, hi, lo),
 		capv: binop(token.SUB, nil, capEnd, lo)}
+}
+
+
+// permuteKeys reorders the keys of a map iteration by a symbolic permutation.
+func (ex *Explorer) permuteKeys(sm *sortedMapIter) {
+	left := append([]value{}, sm.keys...)
+	var out []value
+	for len(left) > 1 {
+		ex.permN++
+		v := ex.declare(fmt.Sprintf("map_order!%d", ex.permN), symv{k: kInt, bk: types.Int})
+		ex.assertTerm(fmt.Sprintf("(and (>= %s 0) (< %s %d))", v.e, v.e, len(left)))
+		k := ex.concretize(v).(int)
+		out = append(out, left[k])
+		left = append(left[:k], left[k+1:]...)
+	}
+	sm.keys = append(out, left...)
 }
